@@ -83,19 +83,19 @@ theorem primsOK_ext (P : Params) (h : Nat) : PrimsOK P h ext :=
 /-! ### "a status for `x` was written between `s` and `s'`" -/
 
 def Wrote (s s' : DB) (x : Hash) : Prop :=
-  ∃ pre post v, s'.statusLog = s.statusLog ++ pre ++ (x, v) :: post
+  ∃ pre post v, v ≠ 0 ∧ s'.statusLog = s.statusLog ++ pre ++ (x, v) :: post
 
 theorem Wrote.mono_left {s0 s s' : DB} {x : Hash} (h0 : s0.statusLog <+: s.statusLog) (h : Wrote s s' x) :
     Wrote s0 s' x := by
   obtain ⟨t, ht⟩ := h0
-  obtain ⟨pre, post, v, hv⟩ := h
-  exact ⟨t ++ pre, post, v, by rw [hv, ← ht]; simp [List.append_assoc]⟩
+  obtain ⟨pre, post, v, hnz, hv⟩ := h
+  exact ⟨t ++ pre, post, v, hnz, by rw [hv, ← ht]; simp [List.append_assoc]⟩
 
 theorem Wrote.mono_right {s s' s'' : DB} {x : Hash} (h : Wrote s s' x) (h2 : s'.statusLog <+: s''.statusLog) :
     Wrote s s'' x := by
   obtain ⟨t, ht⟩ := h2
-  obtain ⟨pre, post, v, hv⟩ := h
-  exact ⟨pre, post ++ t, v, by rw [← ht, hv]; simp [List.append_assoc]⟩
+  obtain ⟨pre, post, v, hnz, hv⟩ := h
+  exact ⟨pre, post ++ t, v, hnz, by rw [← ht, hv]; simp [List.append_assoc]⟩
 
 theorem setExecuted_ok {hash : Hash} {v : Int} {s s' : DB} (h : setExecuted hash v s = .ok () s') :
     s'.statusLog = s.statusLog ++ [(hash, v)] := by
@@ -109,7 +109,7 @@ variable {P : Params} {h : Nat}
 theorem logOf {α} {m : LM α} (hm : Step ext m) {s s' : DB} {a : α} (e : m s = .ok a s') :
     s.statusLog <+: s'.statusLog := (hm.ok e).1
 
-theorem recordTx_wrote {hash : Hash} {rates avgs : Option TMap} {idx : Nat} {t : Tx} {s s' : DB}
+theorem recordTx_wrote (hpos : 0 < h) {hash : Hash} {rates avgs : Option TMap} {idx : Nat} {t : Tx} {s s' : DB}
     (hr : recordTx P h hash rates avgs idx t s = .ok () s') : Wrote s s' hash := by
   have ok := primsOK_ext P h
   unfold recordTx at hr
@@ -124,7 +124,7 @@ theorem recordTx_wrote {hash : Hash} {rates avgs : Option TMap} {idx : Nat} {t :
     have p2 := logOf (ok.insertRelation hash t.inAddr idx false (t.isConversion P)) h3
     have e3 := setExecuted_ok h5
     have p4 := logOf (recordOutputs_step ok hash rates avgs idx t) h6
-    have w : Wrote s2 s3 hash := ⟨[], [], (h : Int), by rw [e3]; simp⟩
+    have w : Wrote s2 s3 hash := ⟨[], [], (h : Int), by omega, by rw [e3]; simp⟩
     exact ((w.mono_left p2).mono_left p1).mono_right p4
 
 theorem forEach_cons_ok {α} {f : α → LM Unit} {x : α} {xs : List α} {s s' : DB}
@@ -133,20 +133,20 @@ theorem forEach_cons_ok {α} {f : α → LM Unit} {x : α} {xs : List α} {s s' 
   obtain ⟨_, s1, h1, h2⟩ := M.bind_ok this
   exact ⟨s1, h1, h2⟩
 
-theorem recordBatch_wrote {hash : Hash} {rates avgs : Option TMap} {t : Tx} {rest : List Tx} {s s' : DB}
+theorem recordBatch_wrote (hpos : 0 < h) {hash : Hash} {rates avgs : Option TMap} {t : Tx} {rest : List Tx} {s s' : DB}
     (hr : recordBatch P h hash rates avgs (t :: rest) s = .ok () s') : Wrote s s' hash := by
   have ok := primsOK_ext P h
   unfold recordBatch M.forEachIdx at hr
   rw [List.zipIdx_cons] at hr
   obtain ⟨s1, h1, h2⟩ := forEach_cons_ok hr
-  have w := recordTx_wrote h1
+  have w := recordTx_wrote hpos h1
   have c1 := recordTx_step ok hash rates avgs
   have p : Step ext (M.forEach (List.zipIdx rest (0 + 1)) fun p => recordTx P h hash rates avgs p.2 p.1) :=
     Step.forEach (fun a => c1 a.2 a.1)
   exact w.mono_right (logOf p h2)
 
 /-- what `applyBatch` did, by the verdict it returns -/
-theorem applyBatch_outcome {e : TxEntry} {rates avgs : Option TMap} {s s' : DB} {v : Verdict}
+theorem applyBatch_outcome (hpos : 0 < h) {e : TxEntry} {rates avgs : Option TMap} {s s' : DB} {v : Verdict}
     (hr : applyBatch P h e rates avgs s = .ok v s') :
     v = verdict P s h rates avgs e.txs ∧ (v = .apply → e.txs ≠ [] → Wrote s s' e.hash) ∧ (∀ f, v ≠ .failBlock f) := by
   unfold applyBatch at hr
@@ -163,7 +163,7 @@ theorem applyBatch_outcome {e : TxEntry} {rates avgs : Option TMap} {s s' : DB} 
       subst hs
       cases htx : e.txs with
       | nil => exact absurd htx hne
-      | cons t rest => rw [htx] at hrec; exact recordBatch_wrote hrec
+      | cons t rest => rw [htx] at hrec; exact recordBatch_wrote hpos hrec
     | fail f s2 => rw [hrec] at hr; cases hr
   | reject c => rw [hver] at hr; simp only [M.pure_run] at hr; injection hr with hv _; exact ⟨hv.symm, ⟨fun h => (by rw [h] at hv; cases hv), fun f hf => (by rw [hf] at hv; cases hv)⟩⟩
   | dropped => rw [hver] at hr; simp only [M.pure_run] at hr; injection hr with hv _; exact ⟨hv.symm, ⟨fun h => (by rw [h] at hv; cases hv), fun f hf => (by rw [hf] at hv; cases hv)⟩⟩
@@ -186,7 +186,75 @@ theorem validAt_txs_ne_nil {e : TxEntry} {hh : Nat} (hv : e.validAt P hh = true)
     rw [hnil] at h1
     simp at h1
 
-/-- how one held batch was dealt with between `s` and `s'`: a status was written for it, or it
+/-! ### every reject code is negative, every execution status is the (positive) height -/
+
+theorem pass1Tx_reject_neg {bal : Ticker → Int} {rates avgs : Option TMap} {t : Tx} {c : Int}
+    (hv : pass1Tx P h bal rates avgs t = some (.reject c)) : c < 0 := by
+  unfold pass1Tx at hv
+  split at hv
+  · injection hv with hv; injection hv with hv; omega
+  · split at hv
+    · split at hv
+      · cases hv
+      · split at hv
+        · cases hv
+        · split at hv
+          · injection hv with hv; injection hv with hv; omega
+          · split at hv
+            · injection hv with hv; injection hv with hv; omega
+            · split at hv
+              · injection hv with hv; injection hv with hv; omega
+              · simp only at hv
+                split at hv <;> cases hv
+    · cases hv
+
+theorem pass1_reject_neg {bal : Ticker → Int} {rates avgs : Option TMap} {c : Int} :
+    ∀ {l : List Tx}, pass1 P h bal rates avgs l = some (.reject c) → c < 0 := by
+  intro l
+  induction l with
+  | nil => intro hv; cases hv
+  | cons t rest ih =>
+    intro hv
+    unfold pass1 at hv
+    cases h1 : pass1Tx P h bal rates avgs t with
+    | some v => rw [h1] at hv; simp only at hv; injection hv with hv; subst hv; exact pass1Tx_reject_neg h1
+    | none => rw [h1] at hv; exact ih hv
+
+theorem pass2_reject_neg {rates avgs : Option TMap} {c : Int} :
+    ∀ {l : List Tx} {bal : Ticker → Int}, pass2 P h rates avgs bal l = some (.reject c) → c < 0 := by
+  intro l
+  induction l with
+  | nil => intro bal hv; cases hv
+  | cons t rest ih =>
+    intro bal hv
+    unfold pass2 at hv
+    split at hv
+    · injection hv with hv; injection hv with hv; omega
+    · split at hv
+      · simp only at hv
+        split at hv
+        · cases hv
+        · exact ih hv
+      · exact ih hv
+
+theorem verdict_reject_neg {db : DB} {rates avgs : Option TMap} {txs : List Tx} {c : Int}
+    (hv : verdict P db h rates avgs txs = .reject c) : c < 0 := by
+  unfold verdict at hv
+  cases txs with
+  | nil => cases hv
+  | cons t0 rest =>
+    simp only at hv
+    cases h1 : pass1 P h (db.balances t0.inAddr) rates avgs (t0 :: rest) with
+    | some v => rw [h1] at hv; simp only at hv; subst hv; exact pass1_reject_neg h1
+    | none =>
+      rw [h1] at hv
+      simp only at hv
+      cases h2 : pass2 P h rates avgs (db.balances t0.inAddr) (t0 :: rest) with
+      | some v => rw [h2] at hv; simp only at hv; subst hv; exact pass2_reject_neg h2
+      | none => rw [h2] at hv; cases hv
+
+/-- how one held batch was dealt with between `s` and `s'`: a NON-ZERO status (the executing height or a
+    negative reject code) was written for it, or it
     carries a replay mark (it was executed already), or its conversion could not be computed at
     some state `sm` (the batch is dropped, see C17's known finding) -/
 def Considered (P : Params) (h : Nat) (rates avgs : TMap) (s s' : DB) (e : TxEntry) : Prop :=
@@ -206,7 +274,7 @@ theorem Considered.mono_right {rates avgs : TMap} {s s' s'' : DB} {e : TxEntry}
   · exact Or.inr (Or.inl (h2.2 _ r))
   · exact Or.inr (Or.inr d)
 
-theorem applyHeld_considers {rates avgs : TMap} {e : TxEntry} {s s' : DB} {b : Bool}
+theorem applyHeld_considers (hpos : 0 < h) {rates avgs : TMap} {e : TxEntry} {s s' : DB} {b : Bool}
     (hr : applyHeld P h rates avgs e s = .ok b s') : Considered P h rates avgs s s' e := by
   have ok := primsOK_ext P h
   unfold applyHeld at hr
@@ -218,7 +286,7 @@ theorem applyHeld_considers {rates avgs : TMap} {e : TxEntry} {s s' : DB} {b : B
     simp only [M.pure_run] at h2
     injection h2 with _ hs
     subst hs
-    exact Or.inl ⟨[], [], -2, by rw [setExecuted_ok h1]; simp⟩
+    exact Or.inl ⟨[], [], -2, by decide, by rw [setExecuted_ok h1]; simp⟩
   · rename_i hvalid
     split at hr
     · rename_i hrep
@@ -227,7 +295,7 @@ theorem applyHeld_considers {rates avgs : TMap} {e : TxEntry} {s s' : DB} {b : B
       subst hs
       exact Or.inr (Or.inl hrep)
     · obtain ⟨v, s1, h1, h2⟩ := M.bind_ok hr
-      obtain ⟨hv, happly, hnf⟩ := applyBatch_outcome h1
+      obtain ⟨hv, happly, hnf⟩ := applyBatch_outcome hpos h1
       have p1 := logOf (applyBatch_step ok e (some rates) (some avgs)) h1
       cases v with
       | reject c =>
@@ -235,7 +303,8 @@ theorem applyHeld_considers {rates avgs : TMap} {e : TxEntry} {s s' : DB} {b : B
         simp only [M.pure_run] at h4
         injection h4 with _ hs
         subst hs
-        have w : Wrote s1 s2 e.hash := ⟨[], [], c, by rw [setExecuted_ok h3]; simp⟩
+        have hc : c < 0 := verdict_reject_neg hv.symm
+        have w : Wrote s1 s2 e.hash := ⟨[], [], c, by omega, by rw [setExecuted_ok h3]; simp⟩
         exact Or.inl (w.mono_left p1)
       | apply =>
         simp only [M.pure_run] at h2
@@ -277,7 +346,7 @@ theorem foldM_all {α β} {f : β → α → LM β} {C : DB → DB → α → Pr
     · exact hL _ _ _ _ e1 (ih b1 s1 b' s' h2 a hin)
 
 /-- **every batch in the holding window is considered** by `ApplyTransactionBatchesInHolding` -/
-theorem applyHolding_considers {c : DB} {rates avgs : TMap} {fromH : Nat} {s s' : DB}
+theorem applyHolding_considers (hpos : 0 < h) {c : DB} {rates avgs : TMap} {fromH : Nat} {s s' : DB}
     (hr : applyHolding P c h rates avgs fromH s = .ok () s') :
     ∀ row ∈ c.holding, fromH ≤ row.height → row.height < h → Considered P h rates avgs s s' row.entry := by
   have ok := primsOK_ext P h
@@ -307,7 +376,7 @@ theorem applyHolding_considers {c : DB} {rates avgs : TMap} {fromH : Nat} {s s' 
     simp only [M.pure_run] at hb
     injection hb with _ hs
     subst hs
-    exact applyHeld_considers ha
+    exact applyHeld_considers hpos ha
   let C : DB → DB → Nat → Prop := fun s s' i =>
     ∀ e ∈ (c.holding.filter (·.height == i)).map (·.entry), Considered P h rates avgs s s' e
   have key := foldM_all (C := C)
@@ -354,7 +423,7 @@ end
 section
 variable {P : Params} {c : DB} {b : Block} {avgs : TMap}
 
-theorem holdingPhase_considers {s s' : DB} (hr : holdingPhase P c b avgs true s = .ok () s') :
+theorem holdingPhase_considers (hpos : 0 < b.height) {s s' : DB} (hr : holdingPhase P c b avgs true s = .ok () s') :
     ∃ rates, ∀ row ∈ c.holding, (c.mostRecentRatesBefore b.height).2 ≤ row.height → row.height < b.height →
       Considered P b.height rates avgs s s' row.entry := by
   have ok := primsOK_ext P b.height
@@ -375,7 +444,7 @@ theorem holdingPhase_considers {s s' : DB} (hr : holdingPhase P c b avgs true s 
     subst hs3
     have e2 : ext.r s1 s2 := ok.touch.ok h3
     exact ⟨ratesToMap P (db.ratesAt b.height), fun row hrow hlo hhi =>
-      (applyHolding_considers h6 row hrow hlo hhi).mono_left e2⟩
+      (applyHolding_considers hpos h6 row hrow hlo hhi).mono_left e2⟩
   split at hr
   · obtain ⟨_, s1, h1, h2⟩ := M.bind_ok hr
     have e1 : ext.r s s1 := (ok.insertBank _).ok h1
@@ -383,7 +452,7 @@ theorem holdingPhase_considers {s s' : DB} (hr : holdingPhase P c b avgs true s 
     exact ⟨rates, fun row hrow hlo hhi => (hc row hrow hlo hhi).mono_left e1⟩
   · exact tail s hr
 
-theorem txPhase_considers {s s' : DB} (hr : txPhase P c b avgs true s = .ok () s') (htx : b.height ≥ P.act.txConv) :
+theorem txPhase_considers (hpos : 0 < b.height) {s s' : DB} (hr : txPhase P c b avgs true s = .ok () s') (htx : b.height ≥ P.act.txConv) :
     ∃ rates, ∀ row ∈ c.holding, (c.mostRecentRatesBefore b.height).2 ≤ row.height → row.height < b.height →
       Considered P b.height rates avgs s s' row.entry := by
   have ok := primsOK_ext P b.height
@@ -391,7 +460,7 @@ theorem txPhase_considers {s s' : DB} (hr : txPhase P c b avgs true s = .ok () s
   simp only [htx, ↓reduceIte] at hr
   obtain ⟨_, s1, h1, h2⟩ := M.bind_ok hr
   obtain ⟨_, s2, h3, h4⟩ := M.bind_ok h2
-  obtain ⟨rates, hc⟩ := holdingPhase_considers h3
+  obtain ⟨rates, hc⟩ := holdingPhase_considers hpos h3
   have e1 : ext.r s s1 := (snapshotPhase_step b ok).ok h1
   have e3 : ext.r s2 s' := (txBlockPhase_step b ok).ok h4
   exact ⟨rates, fun row hrow hlo hhi => ((hc row hrow hlo hhi).mono_left e1).mono_right e3⟩
@@ -401,7 +470,7 @@ theorem txPhase_considers {s s' : DB} (hr : txPhase P c b avgs true s = .ok () s
     without rates — conversions wait), or every batch held at a height of the window
     `[last rated height, this height)` has been considered: a status was written for it during
     this block, or it bears a replay mark, or its conversion was not computable (dropped). -/
-theorem block_considers_held {s' : DB} (hrun : blockTx P c b avgs c = .ok () s') (htx : b.height ≥ P.act.txConv) :
+theorem block_considers_held (hpos : 0 < b.height) {s' : DB} (hrun : blockTx P c b avgs c = .ok () s') (htx : b.height ≥ P.act.txConv) :
     (∃ s1 s2 st, gradeAndRates P c b s1 = .ok st s2 ∧ st ≠ .cont true) ∨
     ∃ rates, ∀ row ∈ c.holding, (c.mostRecentRatesBefore b.height).2 ≤ row.height → row.height < b.height →
       Considered P b.height rates avgs c s' row.entry := by
@@ -427,7 +496,7 @@ theorem block_considers_held {s' : DB} (hrun : blockTx P c b avgs c = .ok () s')
       right
       simp only at h10
       obtain ⟨_, s6, h11, h12⟩ := M.bind_ok h10
-      obtain ⟨rates, hc⟩ := txPhase_considers h11 htx
+      obtain ⟨rates, hc⟩ := txPhase_considers hpos h11 htx
       have e4 : ext.r s6 s2 := (rewardPhase_step b ok).ok h12
       have pre : ext.r c s5 := ext.trans _ _ _ e0 (ext.trans _ _ _ e1 (ext.trans _ _ _ e2 e3))
       exact ⟨rates, fun row hrow hlo hhi =>
